@@ -200,6 +200,28 @@ pub fn dir_case(rng: &mut Rng, cfg: &str, o: &DirOpts, out: &mut Vec<String>) {
                 }
                 out.push(format!("spec.lookup {hu}"));
             }
+            // batch lookups: all published labels, a random sub-batch (with a repeated label), a batch containing a label that
+            // was never published (the whole call fails), the empty batch
+            let publ: Vec<String> = pool.iter().enumerate().filter(|(i, _)| nver[*i] > 0).map(|(_, u)| hex_or_dash(u)).collect();
+            let unpub: Vec<String> = pool.iter().enumerate().filter(|(i, _)| nver[*i] == 0).map(|(_, u)| hex_or_dash(u)).collect();
+            if !publ.is_empty() {
+                let mut sub: Vec<String> = publ.iter().filter(|_| rng.chance(1, 2)).cloned().collect();
+                sub.push(publ[rng.below(publ.len() as u64) as usize].clone());
+                rng.shuffle(&mut sub);
+                for b in [publ.clone(), sub] {
+                    if o.proofs {
+                        out.push(format!("dir.batchlookup {}", b.join(" ")));
+                    }
+                    out.push(format!("spec.batchlookup {}", b.join(" ")));
+                }
+                if let Some(x) = unpub.first() {
+                    out.push(format!("dir.batchlookup {} {}", publ[0], x));
+                    out.push(format!("spec.batchlookup {} {}", x, publ[0]));
+                }
+            }
+            if step % 4 == 0 {
+                out.push("dir.batchlookup".into());
+            }
         }
         if o.histories && (step % 2 == 1 || step + 1 == o.epochs) {
             for (k, u) in pool.iter().enumerate() {
